@@ -314,7 +314,7 @@ pub fn block_on_inline<F: Future + Unpin + Send + 'static>(f: F) -> F::Output wh
 }
 
 #[derive(Default)]
-pub struct Local { resumer: Option<desync::scheduler::QueueResumer>, susp_op: Option<usize>, out: Option<(usize, desync::PipeStream<u64>)> }
+pub struct Local { resumer: Option<desync::scheduler::QueueResumer>, susp_op: Option<usize>, susp_fut: Option<(usize, BoxFuture<'static, Result<desync::scheduler::QueueResumer, futures::channel::oneshot::Canceled>>)>, out: Option<(usize, desync::PipeStream<u64>)> }
 
 fn check_ok_token(ctx: &Ctx, oid: usize, what: &str, got: Option<usize>) {
     let obj = ctx.with_op(oid, |r| r.obj);
@@ -334,6 +334,15 @@ pub fn exec_op(ctx: &Arc<Ctx>, op: &Op, caller: usize, nested: bool, local: &mut
         }
         Op::Open(g) => { let gt = &ctx.gates[*g]; *gt.open.lock().unwrap() = true; gt.cv.notify_all(); return; }
         Op::DropObj(q) => { desync::verif::log("api", "DROPOBJ", *q, String::new()); let o = ctx.objs[*q].lock().unwrap().take(); drop(o); return; }
+        Op::Resume | Op::DropResumer if local.susp_fut.is_some() && local.resumer.is_none() => {
+            // the suspend request was made earlier without awaiting it: get the resumer now, then go on as R / r
+            let (oid, fut) = local.susp_fut.take().unwrap();
+            match block_on(fut, None).unwrap() {
+                Ok(res) => { let t = ctx.tick(); ctx.with_op(oid, |r| { r.start = t; r.runs = 1; }); local.resumer = Some(res); local.susp_op = Some(oid); }
+                Err(_) => ctx.error("C13", format!("suspend {} was cancelled", oid)),
+            }
+            return exec_op(ctx, op, caller, nested, local);
+        }
         Op::Resume => { if let Some(r) = local.resumer.take() { let t = ctx.tick(); if let Some(o) = local.susp_op.take() { ctx.with_op(o, |x| x.end = t); } desync::verif::log("api", "RESUME", 0, String::new()); r.resume(); } return; }
         Op::DropResumer => { if let Some(r) = local.resumer.take() { let t = ctx.tick(); if let Some(o) = local.susp_op.take() { ctx.with_op(o, |x| x.end = t); } desync::verif::log("api", "RESUME", 1, String::new()); drop(r); } return; }
         Op::WaitEv(e) => { block_on(EventFut { ctx: ctx.clone(), e: *e, sig: None }, None); return; }
@@ -588,6 +597,14 @@ fn exec_op_q(ctx: &Arc<Ctx>, op: &Op, caller: usize, nested: bool, local: &mut L
             }
             return;
         }
+        Op::SuspendLazy(_) => {
+            ctx.with_op(oid, |r| { r.accepted = true; });
+            let fut = sch::scheduler().suspend(&qo.queue).boxed();
+            let ret = ctx.tick();
+            ctx.with_op(oid, |r| r.ret = ret);
+            local.susp_fut = Some((oid, fut));
+            return;
+        }
         _ => { ctx.error("C13", format!("operation {} is not available in queue mode", fmt_op(op))); }
     }
     let ret = ctx.tick();
@@ -707,7 +724,7 @@ pub struct Outcome { pub ctx: Arc<Ctx> }
 pub fn make_ctx(prog: &Program, fail_fast: bool, touch_yield: bool) -> Arc<Ctx> {
     let clock = Arc::new(AtomicU64::new(0));
     let mons: Vec<Arc<ObjMon>> = (0..prog.nq).map(|id| Arc::new(ObjMon { id, occ: AtomicI64::new(0), dead: AtomicBool::new(false), drops: AtomicUsize::new(0), free_tick: AtomicU64::new(0), panicked: AtomicBool::new(false) })).collect();
-    let qmode = prog.callers.iter().flatten().any(|o| matches!(o, Op::Suspend(_)));
+    let qmode = prog.callers.iter().flatten().any(|o| matches!(o, Op::Suspend(_) | Op::SuspendLazy(_)));
     let objs = mons.iter().map(|m| StdMutex::new(if qmode { None } else { Some(Arc::new(Desync::new(Payload { mon: m.clone(), clock: clock.clone(), canary: 0xC0FFEE }))) })).collect();
     let qobjs = mons.iter().map(|m| StdMutex::new(if qmode { Some(Arc::new(QObj { queue: desync::scheduler::queue(), data: Box::into_raw(Box::new(Payload { mon: m.clone(), clock: clock.clone(), canary: 0xC0FFEE })) })) } else { None })).collect();
     Arc::new(Ctx {
